@@ -241,8 +241,22 @@ func runOne(t *testing.T, p *Profile, ch *rep.Chooser, fixedCfg *Config, events 
 				}
 			}
 			if ok && p.PostClose && !ch.Abort {
-				if o := w.Net.OpenUDP(); len(o) > 0 {
-					v = &Viol{Tag: "post-close", Sig: "post-close:udp-socket-open", Detail: fmt.Sprint(o, x.Trace)}
+				// harness endpoints (clients, peers) are still open here; everything else must be gone
+				harness := map[string]bool{}
+				for _, c := range w.C {
+					harness[c.Addr.String()] = true
+				}
+				for _, pe := range w.P {
+					harness[pe.Addr.String()] = true
+				}
+				var left []string
+				for _, o := range w.Net.OpenUDP() {
+					if !harness[o] {
+						left = append(left, o)
+					}
+				}
+				if len(left) > 0 {
+					v = &Viol{Tag: "post-close", Sig: "post-close:udp-socket-open", Detail: fmt.Sprint(left, x.Trace)}
 				}
 			}
 		})
